@@ -53,6 +53,8 @@ PASSES = ['optimize', 'constant_propagation', 'common_subexp_elimination',
           '_remove_wire_nets', '_remove_slice_nets', '_remove_unlistened_nets']
 PASS_CODE = {p: i for i, p in enumerate(PASSES)}
 CSE_LIKE = {'optimize', 'common_subexp_elimination'}
+PREMISE = {'_remove_wire_nets': 'wire_removal_ok', '_remove_slice_nets': 'slice_removal_ok',
+           '_remove_unlistened_nets': 'unlistened_ok'}
 FORMS = ['word', 'synth', 'nand', 'aig']
 COMMUTATIVE = set('&|^n+*=')
 OPCODES = ['w', '~', '&', '|', '^', 'n', '+', '-', '*', '<', '>', '=', 'x', 'c', 's', 'r', 'm', '@']
@@ -575,7 +577,7 @@ def has_dup_const_memwrite(block):
 
 def run(ctx):
     quick = ctx.tier == 'quick'
-    ndesigns = (len(DIRECTED) + 10) if quick else (len(DIRECTED) + 120)
+    ndesigns = (len(DIRECTED) + 7) if quick else (len(DIRECTED) + 120)
     ncyc_max = 6 if quick else 12
     max_model_nets = 320 if quick else 700
     cases = []          # one per (design, form): shared dump + stimulus + spec
@@ -805,11 +807,11 @@ def run(ctx):
             if api_ok != 1:
                 ctx.model_mismatch('api_built (Pass/OptCheck.v) is false on an API-built design: the assumption of the '
                                    'C04 theorems does not cover design %d %s' % (c['i'], c['form']), rep)
-            if pname == '_remove_unlistened_nets':
-                ctx.count('unlistened_ok_premise', 'holds' if side_ok == 1 else 'fails')
+            if pname in PREMISE:
+                ctx.count('theorem_premise:' + PREMISE[pname], 'holds' if side_ok == 1 else 'fails')
                 if side_ok != 1:
-                    ctx.model_mismatch('premise unlistened_ok of C04_remove_unlistened_preserves is false '
-                                       '(design %d %s x%d)' % (c['i'], c['form'], reps), rep)
+                    ctx.model_mismatch('decidable premise %s of the preservation theorem of %s is false '
+                                       '(design %d %s x%d)' % (PREMISE[pname], pname, c['i'], c['form'], reps), rep)
             if mtrace != r['trace']:
                 if not bad:
                     ctx.model_mismatch('Output traces of the model result and the real result of %s differ '
